@@ -543,10 +543,9 @@ func (fv *FV) oblName(kind string) string {
 func (fv *FV) query(st *State, extra []string, goal string) string {
 	var b strings.Builder
 	b.WriteString("(set-option :produce-models true)\n(set-logic ALL)\n")
-	for _, d := range fv.decls {
-		b.WriteString(d)
-		b.WriteByte('\n')
-	}
+	// the declarations are filled in when the function is finished (finalizeQueries): a component may be declared
+	// after a fact that mentions it was recorded
+	b.WriteString(declsMarker + "\n")
 	for _, a := range fv.axioms {
 		b.WriteString("(assert " + a + ")\n")
 	}
@@ -561,6 +560,17 @@ func (fv *FV) query(st *State, extra []string, goal string) string {
 	}
 	b.WriteString("(assert " + goal + ")\n(check-sat)\n")
 	return b.String()
+}
+
+const declsMarker = ";;DECLARATIONS;;"
+
+// finalizeQueries puts the complete list of declarations into every query of the function.
+func (fv *FV) finalizeQueries() {
+	all := strings.Join(fv.decls, "\n")
+	for _, o := range fv.obls {
+		o.Query = strings.Replace(o.Query, declsMarker, all, 1)
+		o.CexQuery = strings.Replace(o.CexQuery, declsMarker, all, 1)
+	}
 }
 
 // goalQuery is query for "prove phi": the goal is skolemised first (skolem.go).
